@@ -50,7 +50,8 @@ RULE = ("case = explicit op list over 3 peers x 3 addresses (2 UDPv4Address + 1 
         "6 (thorough) over two 8-op alphabets x cache sizes {500, 1, 2}, in batches of 8^3 continuations of a prefix "
         "(a batch counts one evaluation per executed sequence; extensions of a violating prefix are pruned). "
         "Non-trivial = the sequence contains a removal after a query; distinct = distinct sequence of op kinds.")
-COMPONENTS = {"real": ["ipv8.peerdiscovery.network.Network (all mutators, all get_* queries, snapshot/load_snapshot)",
+COMPONENTS = {"real": ["in-situ family: Network objects inside live runs of real overlays with RandomWalk / RandomChurn on SimNet",
+                       "ipv8.peerdiscovery.network.Network (all mutators, all get_* queries, snapshot/load_snapshot)",
                        "ipv8.peer.Peer (addresses / add_address / equality / hash)",
                        "ipv8.messaging.serialization address packer (snapshot codec)",
                        "curve25519 keys (deterministic bytes through the simkit key seam)"],
@@ -71,7 +72,7 @@ ASSUMPTIONS = ["single-threaded use of Network (graph_lock is taken without cont
                "any of them (also a different one when asked again)",
                "get_introductions_from is executed and must not change other answers, but its own answer (a lazily "
                "maintained cache by design) is not compared unless STRICT_INTRODUCTIONS is set"]
-REACH = ["lru_overflow", "query_then_remove_then_query", "readd_after_remove", "snapshot_roundtrip",
+REACH = ["insitu_network_checks", "insitu_removed_address_checked", "lru_overflow", "query_then_remove_then_query", "readd_after_remove", "snapshot_roundtrip",
          "blacklist_refusal", "address_change", "shared_address", "promote_walkable_to_verified", "garbage_snapshot",
          "enum_sequences", "remove_other_object"]
 
@@ -312,15 +313,20 @@ def cases(tier: str, base_seed: int):  # noqa: ANN201
     tier = tier if tier in ENUM_DEPTH else "quick"
     max_ops = MAX_OPS[tier]
     # interleave: the runner's budget may end before the enumeration does, the random stream must get its share
+    from .c12_insitu import insitu_case
     i = 0
     for batch in _enum_cases(ENUM_DEPTH[tier], ENUM_PLAN[tier]):
         yield batch
         for _ in range(RANDOM_PER_BATCH[tier]):
             yield _random_case(base_seed + i, max_ops)
             i += 1
+            if i % 40 == 0:
+                yield insitu_case(base_seed + i)       # the graph inside a live multi-node run (see c12_insitu.py)
     while True:
         yield _random_case(base_seed + i, max_ops)
         i += 1
+        if i % 40 == 0:
+            yield insitu_case(base_seed + i)
 
 
 def to_explicit(case: dict, res: dict) -> dict | None:
@@ -1185,6 +1191,9 @@ def _run_enum(c: Case, run: Run, case: dict) -> int:
 
 
 def execute(case: dict) -> dict:
+    if case.get("scenario") == "insitu":
+        from .c12_insitu import execute_insitu
+        return execute_insitu(case)
     c = Case(case, first_only=False)    # first-only is applied per graph/model lifetime (Run.viol), not per case
     sizes = list(case.get("sizes") or [500, 500, 500])
     run = Run(c, sizes)
